@@ -380,6 +380,23 @@ def gen_case_L(rng, big=False):
     # set_roadm_input_powers: the auto-design alone always leaves out_voa = 0 on the preamplifiers
     case['amp_settings'] = [[round(rng.uniform(-3, 3), 2), rng.choice([0, 0.5, 1, 2.5])] for _ in peers] \
         if rng.random() < 0.7 else None
+    # persistence: the designed network is saved and loaded again through the routes the tool offers, designed again, and
+    # every crossing must still obey the ORIGINAL configuration
+    u = rng.random()
+    case['persist'] = [] if u < 0.45 else ['legacy'] if u < 0.7 else ['yang'] if u < 0.9 else ['legacy', 'yang']
+    if 'yang' in case['persist']:
+        # the YANG-based format carries dBm targets with 2 and PSD / PSW targets with 10 fraction digits
+        def q(key, v):
+            return v if v is None else round(v, 2) if key in (POL[0], PDEG[0]) else round(v, 10)
+        for d in (case['eq_policy'], case['policy']):
+            for k in d:
+                d[k] = q(k, d[k])
+        for k, tab in case['per_degree'].items():
+            for dg in tab:
+                tab[dg] = q(k, tab[dg])
+        if fused:
+            for k in fused['policy']:
+                fused['policy'][k] = q(k, fused['policy'][k])
     return case
 
 
@@ -646,6 +663,41 @@ def drive_L(case, rng_mod):
         x = {'from': c['from'], 'deg': c['to'], 'spectrum': sp}
         obs['xs'].append(x)
         obs['crossings'].append(cross(roadm, x))
+    obs['persist'] = []
+    for route in case.get('persist') or []:
+        import tempfile
+        from pathlib import Path
+        pr = {'route': route, 'xs': [], 'crossings': []}
+        obs['persist'].append(pr)
+        saved_err = os.dup(2)                     # libyang reports its validation errors on the process's stderr
+        devnull = os.open(os.devnull, os.O_WRONLY)
+        os.dup2(devnull, 2)
+        try:
+            with tempfile.TemporaryDirectory(dir=common.WORK) as td, warnings.catch_warnings():
+                warnings.simplefilter('ignore')
+                fn = Path(td) / 'network.json'
+                if route == 'legacy':
+                    json_io.save_network(net, fn)
+                else:
+                    json_io.save_gnpy_json(copy.deepcopy(json_io.network_to_json(net)), fn)
+                net2 = json_io.load_network(fn, eq)
+                designed_network(eq, net2, no_insert_edfas=True, args_power=case.get('pref', 0))
+        except Exception as e:
+            pr['exc'] = f'{type(e).__name__}: {str(e)[:200]}'
+            continue
+        finally:
+            os.dup2(saved_err, 2)
+            os.close(saved_err)
+            os.close(devnull)
+        r2 = next(n for n in net2.nodes() if n.uid == 'roadm A')
+        pr['ref_in'] = {k: float(v) for k, v in r2.ref_pch_in_dbm.items()}
+        pr['node'] = [r2.target_pch_out_dbm, r2.target_psd_out_mWperGHz, r2.target_out_mWperSlotWidth]
+        r = rng_mod.Random(f"{case['seeds'][0]}-{route}")
+        for cp in configured_paths(case, obs):            # every internal path of the reloaded ROADM
+            sp = gen_spectrum(r, path_bands(view, cp['from'], cp['to']), policy_in_force(view, cp['to']), False)
+            x = {'from': cp['from'], 'deg': cp['to'], 'spectrum': sp}
+            pr['xs'].append(x)
+            pr['crossings'].append(cross(r2, x))
     return obs
 
 
@@ -685,6 +737,24 @@ def gen_case_R(rng):
             spacing = max(spacing, imposed['min_spacing'])          # an imposed mode needs at least its min_spacing
         reqs.append({'id': f'r{j}', 'src': a, 'dst': b, 'via': rng.choice([y for y in NODES_R if y not in (a, b)]) if rng.random() < 0.3 else None,
                      'mode': imposed['format'] if imposed else None, 'bidir': rng.random() < 0.75, 'spacing': spacing})
+        if imposed and rng.random() < 0.7:
+            # a user-defined spectrum (one Carrier per frequency, own offset / baud rate / slot width / power each) that
+            # extends beyond the amplifiers' band at its lower and / or upper end: those carriers are filtered out on the way
+            carriers, fcur = [], rng.choice([190.9e12, 190.95e12, 191.1e12, 191.2e12, 191.32e12])
+            for _ in range(rng.randint(4, 12)):
+                sw = rng.choice([50e9, 50e9, 75e9, 100e9])
+                fcur += sw / 2
+                carriers.append({'f': fcur, 'slot': sw, 'baud': rng.choice([b for b in (32e9, 42e9, 64e9) if b <= sw]),
+                                 'delta': rng.choice([0, 0.5, -1, 1.5, 2, -2.5, round(rng.uniform(-4, 4), 2)]),
+                                 'pdbm': rng.choice([0, 0, -1.5, 1, round(rng.uniform(-6, 3), 2)])})
+                fcur += sw / 2 + rng.choice([0, 0, 12.5e9, 50e9])
+            if rng.random() < 0.4:
+                fcur = rng.choice([195.9e12, 196.0e12])
+                for _ in range(rng.randint(1, 4)):
+                    carriers.append({'f': fcur + 25e9, 'slot': 50e9, 'baud': 32e9, 'delta': rng.choice([0, 1, -2, 3]), 'pdbm': 0})
+                    fcur += 50e9
+            rng.shuffle(carriers)                                   # a dict: any insertion order
+            reqs[-1]['spectrum'] = carriers
     return {'kind': 'R', 'roadms': roadms, 'eq_policy': {POL[eqk]: gen_policy_value(rng, POL[eqk], zero_ok=0.0)},
             'pmd': rng.choice([0, 1e-12]), 'pdl': rng.choice([0, 0.5]), 'profiles': profiles, 'modes': modes, 'requests': reqs,
             'lengths': {a + b: rng.choice([20, 50, 80]) for a in NODES_R for b in NODES_R if a < b},
@@ -781,6 +851,13 @@ def drive_R(case):
         from gnpy.topology.spectrum_assignment import build_oms_list
         build_oms_list(net, eq)
         rqs = json_io.requests_from_json(requests_R(case), eq)
+        from gnpy.core.info import Carrier
+        for r, req in zip(case['requests'], rqs):
+            if r.get('spectrum'):
+                req.initial_spectrum = {c['f']: Carrier(delta_pdb=c['delta'], baud_rate=c['baud'], slot_width=c['slot'], roll_off=0.15,
+                                                        tx_osnr=40, tx_power=10 ** (c['pdbm'] / 10) * 1e-3, label='user')
+                                        for c in r['spectrum']}
+                req.nb_channel = len(r['spectrum'])
         pths = rq.compute_path_dsjctn(net, eq, rqs, [])
         elements.Roadm.__call__, rq.propagate, rq.propagate_and_optimize_mode = spy_call, spy_prop, spy_auto
         with warnings.catch_warnings():
@@ -819,6 +896,7 @@ def views_R(case, obs):
     crossing descriptor and the observation record, in the shapes used by the element-level stream"""
     out = []
     offsets = {m['format']: m.get('equalization_offset_db', 0) for m in case['modes']}
+    user = {r['id']: {c['f']: c for c in r['spectrum']} for r in case['requests'] if r.get('spectrum')}
     for rec in obs['requests']:
         if rec['mode_in_force'] not in offsets:
             continue
@@ -833,10 +911,22 @@ def views_R(case, obs):
                         'calls': [{'from': ev['from'], 'to': ev['deg'], 'type': typ, 'id': None}],
                         'ref_carrier': obs['ref_carrier'], 'ref_in': ev['ref_in'], 'crossings': []}
                 r2 = dict(ev, off=[off] * len(ev['f']))       # the offset of the mode in force, for every carrier
+                if rec['id'] in user:
+                    # user-defined spectrum: every carrier that reaches the ROADM keeps the offset supplied for ITS frequency,
+                    # whatever was filtered out by the amplifiers' band on the way
+                    sup = user[rec['id']]
+                    r2['off'] = [float(sup[f]['delta']) if f in sup else 0.0 for f in ev['f']]
+                    alien = [f for f in ev['f'] if f not in sup]
+                    wrong = [f for f in ev['f'] if f in sup and (sup[f]['baud'] != ev['baud'][ev['f'].index(f)]
+                                                                  or sup[f]['slot'] != ev['slot'][ev['f'].index(f)])]
+                    if alien or wrong:
+                        r2['construction'] = f'carriers reaching the ROADM do not match the supplied ones: unknown {alien}, altered {wrong}'
+                    r2['n_supplied'] = len(sup)
                 xd = {'from': ev['from'], 'deg': ev['deg']}
                 view['crossings'] = [xd]
+                what = 'user-defined spectrum, per-carrier offsets' if rec['id'] in user else f'offset {off} dB'
                 out.append((view, xd, r2, f"request {rec['id']} {ps['direction']} ({ps['kind']}, mode {rec['mode_in_force']}, "
-                                          f"offset {off} dB) {ev['roadm']} {ev['from']}->{ev['deg']}"))
+                                          f"{what}) {ev['roadm']} {ev['from']}->{ev['deg']}"))
     return out
 
 
@@ -1266,6 +1356,9 @@ def run(ctx):
             for iv, (view, xd, rec, tag) in enumerate(vs):
                 ctx.count('R_crossings_in_force')
                 ctx.count('R_crossings_nonzero_mode_offset', int(rec['off'][0] != 0))
+                if 'n_supplied' in rec:
+                    ctx.count('R_crossings_user_spectrum')
+                    ctx.count('R_crossings_user_spectrum_with_filtered_carriers', int(rec['n_supplied'] > len(rec['f'])))
                 fails, judged = oracle_crossing(view, xd, rec, tag)
                 ctx.count('crossings_judged_by_oracle' if judged else 'crossings_config_broken_not_judged')
                 for key, desc in fails:
@@ -1307,6 +1400,36 @@ def run(ctx):
                 for k in range(3):
                     for d, v in c['per_degree'].get(PDEG[k], {}).items():
                         view['per_degree'][PDEG[k]].setdefault(d, v)
+        if c['kind'] == 'L' and view is not None and not oracle_L(c, obs):
+            _, lp = count_pol(c['policy'])
+            want = dict(c['policy']) if lp == 1 else dict(c['eq_policy'])
+            for pr in obs.get('persist', []):
+                ctx.count('L_persist_' + pr['route'])
+                if 'exc' in pr:
+                    degs = [d for k in PDEG for d in c['per_degree'].get(k, {})]
+                    if len(degs) != len(set(degs)):
+                        # a degree listed in two per-degree tables cannot be expressed in the YANG model behind both file
+                        # routes (the degree is the list key there): saving / loading refuses it — not a loss of the policy
+                        ctx.count('L_persist_refused_degree_with_two_targets')
+                        continue
+                    ctx.violation('persistence_failed', f"{pr['route']} save / load / design of an accepted network raised {pr['exc']}", pub)
+                    continue
+                # the ROADM as the user configured it: node policy + the user's per-degree overrides
+                v0 = {'kind': 'A', 'policy': want, 'per_degree': c['per_degree'], 'pmd': c['pmd'], 'pdl': c['pdl'],
+                      'profiles': c['profiles'], 'calls': configured_paths(c, obs), 'ref_carrier': obs['ref_carrier'],
+                      'ref_in': pr['ref_in'], 'crossings': pr['xs']}
+                for j, (x, rec) in enumerate(zip(pr['xs'], pr['crossings'])):
+                    ctx.count('L_persisted_crossings')
+                    fails, judged = oracle_crossing(v0, x, rec, f"after {pr['route']} save + load + design, crossing {x['from']}->{x['deg']}")
+                    ctx.count('crossings_judged_by_oracle' if judged else 'crossings_config_broken_not_judged')
+                    for key, desc in fails:
+                        ctx.violation(key, desc, pub)
+                pick = ctx.rng.sample(range(len(pr['xs'])), min(2, len(pr['xs'])))
+                v1 = dict(v0, crossings=[pr['xs'][i] for i in pick])
+                o1 = {'stage': None, 'crossings': [pr['crossings'][i] for i in pick]}
+                t1, ids1 = term_A(v1, o1)
+                terms.append(t1)
+                meta.append((v1, o1, ids1, pub, f"after {pr['route']} save + load + design"))
         mixed = False
         for j, rec in enumerate(obs['crossings']):
             x = xs[j]
